@@ -92,6 +92,7 @@ def _has_ref_under_container(idx, t, inside=False):
 def _alias_to_container_with_ref(idx, t):
     """DESIGN Appendix C #16: an alias whose target is a container of user types makes the
     example pass crash; the generator stays clear of it (the defect is reported by C03)."""
+    return False      # repaired in the repository (fix 7299f70): these shapes are generated again
     k = t[0]
     if k == 'alias':
         # also an alias of a nullable user type ('Nullable' object has no '_has_example')
@@ -127,8 +128,6 @@ def _feasible(idx, t, label, wants, in_union=False, under_map=False):
     if k == 'map':
         return True
     d = idx.get(t[1], t[2])
-    if in_union and under_map:
-        return False
     if d['examples']:
         return True
     return d['k'] == 'union' and bool(_void_tags(idx, t[1], d))
@@ -201,7 +200,7 @@ def _value(b, t, label, wants, in_union=False, under_map=False, depth=0):
     opts = [e['label'] for e in d['examples']]
     if d['k'] == 'union':
         opts += _void_tags(idx, t[1], d)
-    if not opts or (in_union and under_map):
+    if not opts:
         return None
     return ('ref', g.choice(opts))
 
